@@ -14,6 +14,7 @@ import (
 	"log/slog"
 	"math/rand"
 	"strings"
+	"sync"
 	"testing"
 	"time"
 
@@ -124,7 +125,7 @@ type c13WOp struct {
 	H      *c13Herr
 }
 
-// Kind: 0 session, 1 big, 2 e2e
+// Kind: 0 session, 1 big, 2 e2e, 3 abandoned reads, 4 writes behind a stalled peer
 type c13In struct {
 	Kind     int
 	Honest   bool
@@ -137,6 +138,9 @@ type c13In struct {
 	EOFData  bool
 	N        int      // big: inner payload length
 	E        *c13Herr // e2e: handler result (nil = handler returns nil)
+	Inners   [][]byte // abandon / stalled: BytesValue contents, one message per call
+	Reqs     []int    // abandon: per ReadMsg call 0 = runs to completion, 1 = given up before anything arrived
+	Calls    []int    // stalled: per WriteMsg call 0 = completes after the peer resumes, 1 = given up
 }
 
 func c13NewMsg(typ string) proto.Message {
@@ -554,6 +558,7 @@ func c13Session(e *vfEnv, class string, in c13In) {
 		tnet := &c13Pipe{data: written, pattern: in.Pattern2}
 		tms := newMetadataStream(tnet)
 		tst := newStream(tnet, nil, nil)
+		dests := map[string]proto.Message{} // ONE destination per type, reused across reads without clearing
 		func() {
 			defer func() {
 				if r := recover(); r != nil {
@@ -567,9 +572,14 @@ func c13Session(e *vfEnv, class string, in c13In) {
 				b := &bs[i]
 				switch op.Kind {
 				case 0:
-					m2 := c13NewMsg(op.Typ)
-					if op.Typ == "badutf8" {
-						m2 = new(handshakepb.HandshakeReq)
+					typ := op.Typ
+					if typ == "badutf8" {
+						typ = "handshake.Req"
+					}
+					m2 := dests[typ]
+					if m2 == nil {
+						m2 = c13NewMsg(typ)
+						dests[typ] = m2
 					}
 					if err := tst.ReadMsg(ctx, m2); err != nil || !proto.Equal(b.msg, m2) {
 						typedOK = false
@@ -823,6 +833,283 @@ func (x *c13E2E) run(e *vfEnv, class string, in c13In) {
 			he = coqApp("Some", c13CoqHerr(in.E, herr))
 		}
 		return coqRecord("id", coqN(uint64(id)), "cb", coqApp("E2E", he, o.coq()))
+	})
+}
+
+// ---------------------------------------------------------------------------------------------
+// blocking network stream: Read waits for bytes, Write can be stalled
+
+type c13BlockPipe struct {
+	mu      sync.Mutex
+	cond    *sync.Cond
+	buf     []byte
+	closed  bool
+	waiting int // Read calls blocked for data
+	stall   bool
+	stalled int // Write calls blocked by the stalled peer
+	writes  [][]byte
+}
+
+func c13NewBlockPipe() *c13BlockPipe {
+	p := &c13BlockPipe{}
+	p.cond = sync.NewCond(&p.mu)
+	return p
+}
+
+func (p *c13BlockPipe) Read(b []byte) (int, error) {
+	p.mu.Lock()
+	defer p.mu.Unlock()
+	for len(p.buf) == 0 && !p.closed {
+		p.waiting++
+		p.cond.Wait()
+		p.waiting--
+	}
+	if len(p.buf) == 0 {
+		return 0, io.EOF
+	}
+	n := copy(b, p.buf)
+	p.buf = p.buf[n:]
+	return n, nil
+}
+
+func (p *c13BlockPipe) Write(b []byte) (int, error) {
+	p.mu.Lock()
+	defer p.mu.Unlock()
+	for p.stall && !p.closed {
+		p.stalled++
+		p.cond.Wait()
+		p.stalled--
+	}
+	p.writes = append(p.writes, append([]byte(nil), b...))
+	return len(b), nil
+}
+
+func (p *c13BlockPipe) feed(b []byte) {
+	p.mu.Lock()
+	p.buf = append(p.buf, b...)
+	p.mu.Unlock()
+	p.cond.Broadcast()
+}
+
+func (p *c13BlockPipe) resume() {
+	p.mu.Lock()
+	p.stall = false
+	p.mu.Unlock()
+	p.cond.Broadcast()
+}
+
+func (p *c13BlockPipe) Close() error {
+	p.mu.Lock()
+	p.closed = true
+	p.mu.Unlock()
+	p.cond.Broadcast()
+	return nil
+}
+func (p *c13BlockPipe) Reset() error { return p.Close() }
+
+func (p *c13BlockPipe) get(f func() int) int {
+	p.mu.Lock()
+	defer p.mu.Unlock()
+	return f()
+}
+
+// wait until cond holds or the limit expires (no fixed sleeps: the limit is only reached on failure)
+func c13Until(limit time.Duration, cond func() bool) bool {
+	deadline := time.Now().Add(limit)
+	for {
+		if cond() {
+			return true
+		}
+		if time.Now().After(deadline) {
+			return false
+		}
+		time.Sleep(time.Millisecond)
+	}
+}
+
+var c13Inconclusive = map[string]int{}
+
+func c13BytesMsgs(inners [][]byte) (msgs []proto.Message, wire [][]byte) {
+	for _, v := range inners {
+		m := &wrapperspb.BytesValue{Value: v}
+		b, _ := proto.Marshal(m)
+		if b == nil {
+			b = []byte{}
+		}
+		msgs = append(msgs, m)
+		wire = append(wire, b)
+	}
+	return
+}
+
+// abandoned reads: a ReadMsg whose context has ended returns at once but leaves its goroutine
+// behind holding the msgio reader; one message per call is then written
+func c13Abandon(e *vfEnv, class string, in c13In) {
+	limit := 20 * time.Second * time.Duration(e.Slow)
+	msgs, inner := c13BytesMsgs(in.Inners)
+	if len(msgs) != len(in.Reqs) {
+		return
+	}
+	wcap := &c13Pipe{}
+	wst := newStream(wcap, nil, nil)
+	for _, m := range msgs {
+		if err := wst.WriteMsg(context.Background(), m); err != nil {
+			return
+		}
+	}
+	if len(wcap.writes) != len(msgs) {
+		return
+	}
+	rp := c13NewBlockPipe()
+	defer rp.Close()
+	rd := newStream(rp, nil, nil)
+	var got []c13RObs
+	pending := 0 // frames owed to goroutines left behind
+	idx := 0
+	for _, rq := range in.Reqs {
+		if rq == 1 {
+			ctx, cancel := context.WithCancel(context.Background())
+			cancel()
+			err := rd.ReadMsg(ctx, new(emptypb.Empty))
+			if !errors.Is(err, context.Canceled) {
+				got = append(got, c13RObs{K: "other"})
+				break
+			}
+			// positive synchronisation: the goroutine left behind is blocked in the network read
+			if !c13Until(limit, func() bool { return rp.get(func() int { return rp.waiting }) == 1 }) {
+				c13Inconclusive[class]++
+				return
+			}
+			pending++
+			continue
+		}
+		var b []byte
+		for i := 0; i <= pending; i++ {
+			b = append(b, wcap.writes[idx+i]...)
+		}
+		idx += pending + 1
+		pending = 0
+		rp.feed(b)
+		done := make(chan c13RObs, 1)
+		go func() { done <- c13ReadMsgObs(rd) }()
+		select {
+		case o := <-done:
+			got = append(got, o)
+		case <-time.After(limit):
+			c13Inconclusive[class]++
+			return
+		}
+	}
+	e.Emit(class, in, got, func(id int) string {
+		is := make([]string, len(inner))
+		for i, b := range inner {
+			is[i] = coqBytes(b)
+		}
+		rs := make([]string, len(in.Reqs))
+		for i, r := range in.Reqs {
+			rs[i] = coqN(uint64(r))
+		}
+		gs := make([]string, len(got))
+		for i, o := range got {
+			gs[i] = o.coq()
+		}
+		return coqRecord("id", coqN(uint64(id)), "cb", coqApp("Abandon", coqList(is), coqList(rs), coqList(gs)))
+	})
+}
+
+// writes behind a peer that does not take bytes: the first call is stuck inside the network
+// write, later calls queue behind it; calls marked 1 are given up through their context
+func c13Stalled(e *vfEnv, class string, in c13In) {
+	limit := 20 * time.Second * time.Duration(e.Slow)
+	msgs, inner := c13BytesMsgs(in.Inners)
+	if len(msgs) != len(in.Calls) || len(msgs) == 0 {
+		return
+	}
+	np := c13NewBlockPipe()
+	np.stall = true
+	defer np.Close()
+	wst := newStream(np, nil, nil)
+	type res struct {
+		i   int
+		err error
+	}
+	results := make(chan res, len(msgs))
+	completed := 0
+	for i, m := range msgs {
+		i, m := i, m
+		switch {
+		case i == 0:
+			ctx, cancel := context.WithCancel(context.Background())
+			defer cancel()
+			first := make(chan error, 1)
+			go func() { first <- wst.WriteMsg(ctx, m) }()
+			if !c13Until(limit, func() bool { return np.get(func() int { return np.stalled }) == 1 }) {
+				c13Inconclusive[class]++
+				return
+			}
+			if in.Calls[0] == 1 {
+				cancel()
+				select {
+				case err := <-first:
+					if !errors.Is(err, context.Canceled) {
+						c13Inconclusive[class]++
+						return
+					}
+				case <-time.After(limit):
+					c13Inconclusive[class]++
+					return
+				}
+			} else {
+				completed++
+				go func() { results <- res{0, <-first} }()
+			}
+		case in.Calls[i] == 1:
+			ctx, cancel := context.WithCancel(context.Background())
+			cancel()
+			if err := wst.WriteMsg(ctx, m); !errors.Is(err, context.Canceled) {
+				c13Inconclusive[class]++
+				return
+			}
+		default:
+			completed++
+			go func() { results <- res{i, wst.WriteMsg(context.Background(), m)} }()
+		}
+	}
+	np.resume()
+	for k := 0; k < completed; k++ {
+		select {
+		case r := <-results:
+			if r.err != nil {
+				c13Inconclusive[class]++
+				return
+			}
+		case <-time.After(limit):
+			c13Inconclusive[class]++
+			return
+		}
+	}
+	// the goroutines of the given-up calls finish on their own
+	if !c13Until(limit, func() bool { return np.get(func() int { return len(np.writes) }) >= len(msgs) }) {
+		c13Inconclusive[class]++
+		return
+	}
+	np.mu.Lock()
+	wire := append([][]byte(nil), np.writes...)
+	np.mu.Unlock()
+	e.Emit(class, in, wire, func(id int) string {
+		is := make([]string, len(inner))
+		for i, b := range inner {
+			is[i] = coqBytes(b)
+		}
+		cs := make([]string, len(in.Calls))
+		for i, c := range in.Calls {
+			cs[i] = coqN(uint64(c))
+		}
+		ws := make([]string, len(wire))
+		for i, w := range wire {
+			ws[i] = coqBytes(w)
+		}
+		return coqRecord("id", coqN(uint64(id)), "cb", coqApp("StalledWrites", coqList(is), coqList(cs), coqList(ws)))
 	})
 }
 
@@ -1236,6 +1523,10 @@ func TestVerifC13(t *testing.T) {
 				x = c13StartE2E(t)
 			}
 			x.run(e, class, in)
+		case 3:
+			c13Abandon(e, class, in)
+		case 4:
+			c13Stalled(e, class, in)
 		default:
 			if len(in.Pattern) == 0 {
 				in.Pattern = []int{1}
@@ -1277,6 +1568,56 @@ func TestVerifC13(t *testing.T) {
 		run("all-types", c13In{Kind: 0, Honest: true, Pattern: []int{sz}, Pattern2: []int{4 - sz, 1}, WOps: ops, ROps: rops})
 	}
 	run("empty-session", c13In{Kind: 0, Honest: true, Pattern: []int{1}, Pattern2: []int{1}})
+	// an error frame with code OK: ReadMsg returns nil and leaves the destination untouched
+	// (correspondence only: outside the property)
+	okst := func(msg string) c13WOp { return c13WOp{Kind: 2, S: &c13Status{Code: 0, Msg: []byte(msg)}} }
+	run("ok-error-frame", c13In{Kind: 0, Honest: true, Pattern: []int{1}, Pattern2: []int{3}, WOps: []c13WOp{okst("not data")}, ROps: []int{0}})
+	run("ok-error-frame", c13In{Kind: 0, Honest: true, Pattern: []int{1 << 20}, Pattern2: []int{1}, WOps: []c13WOp{c13GenMsgOp(r), okst(""), c13GenMsgOp(r)}, ROps: []int{0, 0, 0}})
+	run("ok-error-frame", c13In{Kind: 0, Honest: true, Pattern: []int{2}, Pattern2: []int{5}, WOps: []c13WOp{okst("héllo"), okst("x"), {Kind: 2, S: &c13Status{Code: 0, Msg: []byte("d"), Details: []c13Any{{Url: []byte("u"), Val: []byte{1}}}}}}, ROps: []int{0, 0, 0}})
+	// one destination message reused across reads: populated, then empty, then populated again
+	{
+		mk := func(typ string, m proto.Message) c13WOp { w, _ := proto.Marshal(m); return c13WOp{Kind: 0, Typ: typ, Wire: w} }
+		pi := func() *discoverypb.PeerInfo { return &discoverypb.PeerInfo{EthAddress: c13RandBytes(r, 20), Underlay: c13RandBytes(r, 30)} }
+		bid := &preconfpb.Bid{TxHash: "0xabc", BidAmount: "10", BlockNumber: 5, Digest: c13RandBytes(r, 32), Signature: c13RandBytes(r, 65), DecayStartTimestamp: 1, DecayEndTimestamp: 2}
+		ops := []c13WOp{
+			mk("discovery.PeerList", &discoverypb.PeerList{Peers: []*discoverypb.PeerInfo{pi(), pi()}}),
+			mk("discovery.PeerList", &discoverypb.PeerList{}),
+			mk("discovery.PeerList", &discoverypb.PeerList{Peers: []*discoverypb.PeerInfo{pi()}}),
+			mk("preconf.Bid", bid), mk("preconf.Bid", &preconfpb.Bid{}), mk("preconf.Bid", &preconfpb.Bid{BidAmount: "7"}),
+			mk("preconf.PreConfirmation", &preconfpb.PreConfirmation{Bid: bid, Digest: c13RandBytes(r, 32)}),
+			mk("preconf.PreConfirmation", &preconfpb.PreConfirmation{}),
+			mk("handshake.Req", &handshakepb.HandshakeReq{PeerType: "provider", Token: "t", Sig: c13RandBytes(r, 65)}),
+			mk("handshake.Req", &handshakepb.HandshakeReq{}),
+			mk("bytes", &wrapperspb.BytesValue{Value: []byte("abc")}), mk("bytes", &wrapperspb.BytesValue{}),
+		}
+		rops := make([]int, len(ops))
+		for _, pat := range [][]int{{1}, {1 << 20}, {7, 2}} {
+			run("reuse-dest", c13In{Kind: 0, Honest: true, Pattern: pat, Pattern2: pat, WOps: ops, ROps: rops})
+		}
+	}
+	// abandoned reads (outside the property; compared with the model's serve): never two given-up
+	// calls in a row, so at most one goroutine is left behind at a time
+	for _, reqs := range [][]int{{1, 0}, {1, 0, 0}, {0, 1, 0}, {0, 0}, {1, 0, 1, 0}, {0, 1, 0, 0, 1, 0}, {0, 1}} {
+		inn := make([][]byte, len(reqs))
+		for i := range inn {
+			inn[i] = append([]byte(fmt.Sprintf("m%d-", i)), c13RandBytes(r, r.Intn(40))...)
+		}
+		run("abandoned-read", c13In{Kind: 3, Inners: inn, Reqs: reqs})
+	}
+	// writes behind a stalled peer, some given up while stuck or queued
+	for _, calls := range [][]int{{1, 1, 0}, {1, 0, 0}, {0, 1, 0}, {1, 1, 1, 0, 0}, {0, 0}, {1, 0}} {
+		for _, shrinking := range []bool{false, true} {
+			inn := make([][]byte, len(calls))
+			for i := range inn {
+				n := 1 + r.Intn(60)
+				if shrinking {
+					n = 70 - 12*i + r.Intn(5) // later messages fit into an earlier message's buffer
+				}
+				inn[i] = append([]byte(fmt.Sprintf("w%d-", i)), c13RandBytes(r, n)...)
+			}
+			run("stalled-writes", c13In{Kind: 4, Inners: inn, Calls: calls})
+		}
+	}
 	// the production arrangement: the header is read through the metadata stream's reader, what
 	// follows through the data stream's reader, both over the same network stream, and the header
 	// arrives in ONE chunk together with the frames behind it (a reader that reads ahead loses them)
@@ -1353,5 +1694,8 @@ func TestVerifC13(t *testing.T) {
 	}
 	for i := 0; i < k; i++ {
 		run("e2e", c13In{Kind: 2, E: c13GenHerr(r)})
+	}
+	for cl, n := range c13Inconclusive {
+		t.Logf("c13: class %s: %d case(s) inconclusive (synchronisation deadline), dropped", cl, n)
 	}
 }
